@@ -103,8 +103,8 @@ func main() {
 		}
 		fo, _ := os.OpenFile(args["out"], os.O_APPEND|os.O_CREATE|os.O_WRONLY, 0644)
 		ev, _ := json.Marshal(map[string]interface{}{"ev": "Crash", "i": m.I, "case": m.Case, "msg": crashText(string(outb)), "race": strings.Contains(string(outb), "DATA RACE")})
-		// make sure a partial last line does not swallow the event
-		fo.Write([]byte("\n"))
+		// the worker may have died with part of an event flushed: drop the partial last line
+		dropPartialLine(args["out"])
 		fo.Write(ev)
 		fo.Write([]byte("\n"))
 		fo.Close()
@@ -113,6 +113,35 @@ func main() {
 	}
 	fmt.Printf("crashes=%d\n", crashes)
 	fmt.Println("DRIVE-OK")
+}
+
+func dropPartialLine(path string) {
+	f, err := os.OpenFile(path, os.O_RDWR, 0644)
+	if err != nil {
+		return
+	}
+	defer f.Close()
+	fi, err := f.Stat()
+	if err != nil || fi.Size() == 0 {
+		return
+	}
+	buf := make([]byte, 1<<16)
+	end := fi.Size()
+	for end > 0 {
+		n := int64(len(buf))
+		if n > end {
+			n = end
+		}
+		f.ReadAt(buf[:n], end-n)
+		for k := n - 1; k >= 0; k-- {
+			if buf[k] == '\n' {
+				f.Truncate(end - n + k + 1)
+				return
+			}
+		}
+		end -= n
+	}
+	f.Truncate(0)
 }
 
 // runWatched runs the worker under a watchdog: resident memory above VERIF_MEM_MB (default 6000) or a
